@@ -9,3 +9,5 @@ EXPLANATION = (
 UNDECIDED = "crash points and fault sequences are not enumerated; what a reader makes of each file prefix needs the bytes."
 ASSUMPTIONS = ["BufWriter::seek flushes its buffer before seeking; BufWriter::drop ignores flush errors", "a reader rejects a file whose first four bytes are zero (magic check C10-T1)"]
 OBLIGATIONS = [K.MAGIC_OWNER, K.HEADER_LAST, K.MUST_FLUSH, K.ERR_DISC, K.JOIN_RESULTS, K.WRITER_LAYOUT[0], K.WRITER_LAYOUT[1], K.WRITER_UPDATE, K.CONSUMER]
+# type-resolved rules over the MIR facts (tools/bt-mir)
+OBLIGATIONS = OBLIGATIONS + [K.MIR_RESULTS]
